@@ -22,6 +22,7 @@ EXPLANATION = (
     "the one advancing that counter reads it (so it can influence nothing but the id bytes); (R4) request_bytes mutates "
     "self.request only in command classes that are never instantiated at module / class level. Observational equivalence of "
     "interleaved and solo runs is not decided."
+    ' (R5) no module- or class-level binding holds an exhaustible iterator (generator expression, chain, map, filter, zip, iter ...) that a function reads.'
 )
 
 MUTATORS = {"append", "extend", "insert", "pop", "remove", "clear", "update", "setdefault", "popitem", "sort", "reverse", "add", "discard"}
